@@ -15,9 +15,14 @@
 (*                                                                         *)
 (* A rule list has up to three entries: [k |-> "path", p], [k |-> "host",  *)
 (* h, sub] (HostMatches(h) -> nested list) or [k |-> "nest", p, sub] (path *)
-(* rule whose target is a nested list; nested rules see the whole path).   *)
-(* Dispatch = first entry (and first nested rule) matching host and whole  *)
-(* path, else the default handler <<0, 0>>.  Reverse(rule, args) joins the *)
+(* rule whose target is a nested list; nested rules see the whole path),   *)
+(* all given to the Application constructor, or [k |-> "addh", h, sub]:    *)
+(* host rules added afterwards with Application.add_handlers(h, sub).      *)
+(* add_handlers rules are consulted BEFORE the constructor's rules, and if *)
+(* the application has a default_host (cfg.dh) each of them is consulted   *)
+(* once more AFTER all other rules with default_host in place of the       *)
+(* request's host.  Slots is that order.  Dispatch = first slot (and first *)
+(* nested rule) matching host and whole path, else the default <<0, 0>>.  Reverse(rule, args) joins the *)
 (* literals with the arguments escaped by urllib.parse.quote (safe "/").   *)
 (***************************************************************************)
 EXTENDS WebChars
@@ -27,12 +32,13 @@ CONSTANTS Mode,        \* "flat" | "struct" | "gen"   (which rule lists Init enu
           HostPats,    \* subset of {"h_a", "h_any"}
           MaxRules,
           ElemToks, GenLen,    \* mode "gen": patterns "/" + <= GenLen elements
+          DefaultHosts,  \* values of cfg.dh explored
           Hosts,       \* Host header values
           PathToks, PathLen,   \* request paths "/" + <= PathLen tokens
           ArgNames,    \* names from ArgMenu used for reverse_url
           MaxReq
 
-VARIABLES cfg,   \* [rules]
+VARIABLES cfg,   \* [rules, dh]   dh: the application's default_host (a key of HostName) or "none"
           n, step
 vars == <<cfg, n>>
 
@@ -98,7 +104,7 @@ Decoded(caps) == [i \in 1..Len(caps) |-> Unquote(caps[i])]
 ----------------------------------------------------------------------------
 (* hosts: HTTPServerRequest.host_name (lower-cased, port stripped) as a table *)
 HostName == "a.com" :> "a.com" @@ "a.com:8080" :> "a.com" @@ "A.COM" :> "a.com" @@ "xa.com" :> "xa.com"
-            @@ "b.com" :> "b.com" @@ "a.com.b.com" :> "a.com.b.com"
+            @@ "b.com" :> "b.com" @@ "a.com.b.com" :> "a.com.b.com" @@ "a.com.evil.net" :> "a.com.evil.net"
 HostMatch(h, host) == h = "h_any" \/ (h = "h_a" /\ HostName[host] = "a.com")      \* h_a is the regex a\.com
 
 (* dispatch *)
@@ -110,12 +116,22 @@ FirstSub(i, subs, s) ==
     ELSE LET j == CHOOSE x \in js : \A y \in js : x <= y IN Hit(i, j, subs[j], Match(subs[j], s))
 EntryResult(i, e, host, s) ==
     CASE e.k = "path" -> (IF Match(e.p, s).ok THEN Hit(i, 0, e.p, Match(e.p, s)) ELSE Default)
-      [] e.k = "host" -> (IF HostMatch(e.h, host) THEN FirstSub(i, e.sub, s) ELSE Default)
+      [] e.k \in {"host", "addh"} -> (IF HostMatch(e.h, host) THEN FirstSub(i, e.sub, s) ELSE Default)
       [] e.k = "nest" -> (IF Match(e.p, s).ok THEN FirstSub(i, e.sub, s) ELSE Default)
-Dispatch(rules, host, s) ==
-    LET is == {i \in 1..Len(rules) : EntryResult(i, rules[i], host, s).rule # <<0, 0>>} IN
-    IF is = {} THEN Default
-    ELSE LET i == CHOOSE x \in is : \A y \in is : x <= y IN EntryResult(i, rules[i], host, s)
+(* consultation order: add_handlers rules, constructor rules, default_host copies of the add_handlers rules *)
+Idx(rules, P(_)) == SelectSeq([i \in 1..Len(rules) |-> i], LAMBDA i : P(rules[i]))
+Slots(c) ==
+    LET ah == Idx(c.rules, LAMBDA e : e.k = "addh")
+        ot == Idx(c.rules, LAMBDA e : e.k # "addh")
+    IN [q \in 1..Len(ah) |-> [i |-> ah[q], d |-> FALSE]] \o [q \in 1..Len(ot) |-> [i |-> ot[q], d |-> FALSE]]
+       \o (IF c.dh = "none" THEN <<>> ELSE [q \in 1..Len(ah) |-> [i |-> ah[q], d |-> TRUE]])
+SlotHost(c, sl, host) == IF sl.d THEN c.dh ELSE host
+Dispatch(c, host, s) ==
+    LET sl == Slots(c)
+        qs == {q \in 1..Len(sl) : EntryResult(sl[q].i, c.rules[sl[q].i], SlotHost(c, sl[q], host), s).rule # <<0, 0>>}
+    IN IF qs = {} THEN Default
+       ELSE LET q == CHOOSE x \in qs : \A y \in qs : x <= y
+            IN EntryResult(sl[q].i, c.rules[sl[q].i], SlotHost(c, sl[q], host), s)
 
 (* reverse: literals joined with quote(arg, safe="/") *)
 QuoteKeep(t) == Concat([i \in 1..Len(t) |->
@@ -146,10 +162,12 @@ PathText(toks) == <<SLASH>> \o Concat([i \in 1..Len(toks) |-> PTok[toks[i]]])
 PatSet == {PatMenu[x] : x \in Pats}
 PathEntry(p) == [k |-> "path", h |-> "", p |-> p, sub |-> <<>>]
 HostEntry(h, sub) == [k |-> "host", h |-> h, p |-> <<>>, sub |-> sub]
+AddhEntry(h, sub) == [k |-> "addh", h |-> h, p |-> <<>>, sub |-> sub]
 NestEntry(p, sub) == [k |-> "nest", h |-> "", p |-> p, sub |-> sub]
 NestOuters == {<<"s", "Gany">>, <<"s", "a", "Gany">>}
 Entries == {PathEntry(p) : p \in PatSet}
            \cup {HostEntry(h, <<p>>) : h \in HostPats, p \in PatSet}
+           \cup {AddhEntry(h, <<p>>) : h \in HostPats, p \in PatSet}
            \cup {NestEntry(o, <<p>>) : o \in NestOuters, p \in PatSet}
            \cup {NestEntry(o, <<p, q>>) : o \in {<<"s", "Gany">>}, p \in PatSet, q \in PatSet}
 RuleLists ==
@@ -162,13 +180,14 @@ InitWith(c) ==
     /\ cfg = c
     /\ n = 0
     /\ step = [act |-> "init", args |-> <<>>, exp |-> Default]
-InitState == \E rl \in RuleLists : InitWith([rules |-> rl])
+HasAddh(rl) == \E i \in 1..Len(rl) : rl[i].k = "addh"
+InitState == \E rl \in RuleLists, dh \in DefaultHosts : (dh # "none" => HasAddh(rl)) /\ InitWith([rules |-> rl, dh |-> dh])
 
 (* find_handler for a request with this Host header and path text *)
 DoDispatch(host, s) ==
     /\ n < MaxReq
     /\ n' = n + 1 /\ UNCHANGED cfg
-    /\ step' = [act |-> "dispatch", args |-> <<host, s>>, exp |-> Dispatch(cfg.rules, host, s)]
+    /\ step' = [act |-> "dispatch", args |-> <<host, s>>, exp |-> Dispatch(cfg, host, s)]
 
 (* reverse_url of the rule (i, j) (every rule is named) with argument texts *)
 DoReverse(i, j, args) ==
@@ -190,19 +209,19 @@ Spec == InitState /\ [][Next]_<<vars, step>>
 IsDispatch == step.act = "dispatch"
 AllRules == {<<i, j>> \in (1..3) \X (0..2) : i <= Len(cfg.rules) /\ (IF j = 0 THEN cfg.rules[i].k = "path"
                                                                        ELSE j <= Len(cfg.rules[i].sub))}
-(* does rule (i, j) accept host and path, by the declarative semantics? *)
-Accepts(i, j, host, s) ==
-    LET e == cfg.rules[i] IN
-    CASE e.k = "path" -> Splits(e.p, 1, s, 1) # {}
-      [] e.k = "host" -> HostMatch(e.h, host) /\ Splits(e.sub[j], 1, s, 1) # {}
-      [] e.k = "nest" -> Splits(e.p, 1, s, 1) # {} /\ Splits(e.sub[j], 1, s, 1) # {}
-Before(r1, r2) == r1[1] < r2[1] \/ (r1[1] = r2[1] /\ r1[2] < r2[2])
-(* first match: the chosen rule accepts, no earlier rule does; default iff none accepts *)
+(* does nested rule j (0 for a path entry) of slot q accept host and path, by the declarative semantics? *)
+SlotAccepts(q, j, host, s) ==
+    LET sl == Slots(cfg)[q] e == cfg.rules[sl.i] h == SlotHost(cfg, sl, host) IN
+    CASE e.k = "path" -> j = 0 /\ Splits(e.p, 1, s, 1) # {}
+      [] e.k \in {"host", "addh"} -> j \in 1..Len(e.sub) /\ HostMatch(e.h, h) /\ Splits(e.sub[j], 1, s, 1) # {}
+      [] e.k = "nest" -> j \in 1..Len(e.sub) /\ Splits(e.p, 1, s, 1) # {} /\ Splits(e.sub[j], 1, s, 1) # {}
+(* first match: the chosen rule is the accepting one that comes first in consultation order; default iff none *)
 FirstMatch == IsDispatch =>
-    LET host == step.args[1] s == step.args[2] r == step.exp.rule IN
-    IF r = <<0, 0>> THEN \A x \in AllRules : ~Accepts(x[1], x[2], host, s)
-    ELSE /\ r \in AllRules /\ Accepts(r[1], r[2], host, s)
-         /\ \A x \in AllRules : Before(x, r) => ~Accepts(x[1], x[2], host, s)
+    LET host == step.args[1] s == step.args[2]
+        hits == {x \in (1..Len(Slots(cfg))) \X (0..2) : SlotAccepts(x[1], x[2], host, s)}
+    IN IF hits = {} THEN step.exp.rule = <<0, 0>>
+       ELSE LET f == CHOOSE x \in hits : \A y \in hits : x[1] < y[1] \/ (x[1] = y[1] /\ x[2] <= y[2])
+            IN step.exp.rule = <<Slots(cfg)[f[1]].i, f[2]>>
 (* the engine's captures are a split of the text, the lexicographically longest one, then decoded *)
 LongerOrEqual(a, b) == \/ a = b
                        \/ \E i \in 1..Len(a) : Len(a[i]) > Len(b[i]) /\ \A k \in 1..(i - 1) : Len(a[k]) = Len(b[k])
